@@ -209,46 +209,61 @@ elab "ev_hyp" : tactic => withMainContext do
       catch _ => pure ()
   throwError "ev_hyp: no applicable hypothesis"
 
-/-- find a `let` under the projections `.store` / `.1` of a goal expression -/
-partial def peelLet (e : Expr) : Option ((Expr → Expr) × Expr) :=
-  if e.isLet then some (id, e)
-  else match e with
-    | .mdata _ b => peelLet b
-    | .proj n i b => (peelLet b).map fun (c, l) => (fun x => .proj n i (c x), l)
-    | .app f b =>
-      if e.isAppOfArity ``Streams.store 1 || e.isAppOfArity ``Prod.fst 3 then
-        (peelLet b).map fun (c, l) => (fun x => .app f (c x), l)
-      else none
-    | _ => none
+/-- the base of a chain of projections `.store` / `.1`, when it is a local variable (possibly applied
+    to arguments: a local function definition) -/
+partial def projBase (e : Expr) : Option ((Expr → Expr) × FVarId × Array Expr) :=
+  match e with
+  | .fvar id => some (fun x => x, id, #[])
+  | .mdata _ b => projBase b
+  | .proj n i b => (projBase b).map fun (c, f) => (fun x => .proj n i (c x), f)
+  | .app f b =>
+    if e.isAppOfArity ``Streams.store 1 || e.isAppOfArity ``Prod.fst 3 then
+      (projBase b).map fun (c, fv) => (fun x => .app f (c x), fv)
+    else if e.getAppFn.isFVar then some (fun x => x, e.getAppFn.fvarId!, e.getAppArgs)
+    else none
+  | _ => none
 
-/-- on a goal `Evolves P N a (… let x := v; b …).store`: when `x : Streams`, prove the goal for `v`
-    first and go on with an opaque `x` (keeps the terms small); any other `let` is unfolded -/
-elab "ev_let" : tactic => do
+/-- goal `Evolves P N a x.store` with `x` a local definition (`x : Streams := v`): unfold `x` -/
+elab "ev_unfold" : tactic => do
   let g ← getMainGoal
   g.withContext do
-    let ty ← instantiateMVars (← g.getType)
-    unless ty.isAppOfArity ``Evolves 4 do throwError "ev_let: not an Evolves goal"
+    let ty := (← instantiateMVars (← g.getType)).consumeMData
+    unless ty.isAppOfArity ``Evolves 4 do throwError "ev_unfold: not an Evolves goal"
     let E := ty.appArg!
     let pre := ty.appFn!
-    match peelLet E with
-    | none => throwError "ev_let: no let"
-    | some (ctx, l) =>
-      match l with
-      | .letE x T v b _ =>
-        if T.isConstOf ``Streams then
-          let g1 ← mkFreshExprSyntheticOpaqueMVar (mkApp pre (mkApp (mkConst ``Streams.store) v))
-          let g2ty ← withLocalDeclD x T fun xv => do
-            let hxTy := mkApp pre (mkApp (mkConst ``Streams.store) xv)
-            withLocalDeclD `hx hxTy fun hv => do
-              mkForallFVars #[xv, hv] (mkApp pre (ctx (b.instantiate1 xv)))
-          let g2 ← mkFreshExprSyntheticOpaqueMVar g2ty
-          g.assign (mkApp2 g2 v g1)
-          let (_, g2') ← g2.mvarId!.introNP 2
-          replaceMainGoal [g1.mvarId!, g2']
-        else
-          let g' ← g.change (mkApp pre (ctx (b.instantiate1 v)))
-          replaceMainGoal [g']
-      | _ => throwError "ev_let: unexpected"
+    match projBase E with
+    | some (ctx, fv, args) =>
+      match (← fv.getDecl).value? with
+      | some v =>
+        let g' ← g.replaceTargetDefEq (mkApp pre (ctx (v.beta args)))
+        replaceMainGoal [g']
+      | none => throwError "ev_unfold: not a local definition"
+    | none => throwError "ev_unfold: no local variable"
+
+/-- pull all `let`s of the goal into the context; for every new local definition `x : Streams := v`
+    add the hypothesis `Evolves P N a x.store` (as a new first goal) so that `x` is dealt with once -/
+elab "ev_lets" : tactic => do
+  let before := (← (← getMainGoal).getDecl).lctx
+  evalTactic (← `(tactic| extract_lets))
+  let g ← getMainGoal
+  let ty := (← instantiateMVars (← g.getType)).consumeMData
+  unless ty.isAppOfArity ``Evolves 4 do return
+  let pre := ty.appFn!
+  let lctx := (← g.getDecl).lctx
+  let mut main := g
+  let mut side : List MVarId := []
+  for d in lctx do
+    if d.isImplementationDetail then continue
+    if before.contains d.fvarId then continue
+    if d.value?.isNone then continue
+    unless d.type.isConstOf ``Streams do continue
+    let T := mkApp pre (mkApp (mkConst ``Streams.store) d.toExpr)
+    let hm ← main.withContext <| mkFreshExprSyntheticOpaqueMVar T
+    let main' ← main.assert `hlet T hm
+    let (_, main'') ← main'.intro1P
+    side := side ++ [hm.mvarId!]
+    main := main''
+  replaceMainGoal (side ++ [main])
 
 /-- closes `CoreEq a b` when `b` is `a` with non-core fields changed -/
 syntax "core_tac" : tactic
@@ -270,6 +285,6 @@ macro_rules | `(tactic| ev_step) => `(tactic| ev_hyp)
 
 /-- repeat `ev_step`, normalising `.store`, splitting `if`/`match` and eliminating result pairs on the way -/
 macro "ev" : tactic =>
-  `(tactic| repeat' (first | assumption | exact Evolves.refl _ | ev_let | ev_step | simp (config := { zeta := false }) only [crp_store] | subst_fst | split | with_reducible refine Evolves.ite (fun _ => ?_) (fun _ => ?_)))
+  `(tactic| repeat' (first | assumption | exact Evolves.refl _ | ev_lets | ev_unfold | ev_step | simp (config := { zeta := false }) only [crp_store] | subst_fst | split | with_reducible refine Evolves.ite (fun _ => ?_) (fun _ => ?_)))
 
 end H2V.Lemmas.ConnResetP
